@@ -121,66 +121,152 @@ def registry_accesses(repo):
 
 # ---------------------------------------------------------------------------------------------------
 
+# ---------------------------------------------------------------------------------------------------
+# tolerant matching: everything below looks at NORMALISED functions (py2v.normalize_func: no docstrings, comments,
+# annotations, typing.cast, logging, `pass`).  `same_func` compares a whole function with pinned reference texts up to
+# alpha-renaming of locals; `has` looks for statements/expressions in which names _L1, _L2, ... stand for any local name
+# (bound consistently).  What is pinned is unchanged: the data flow and the calls, not the spelling.
+
 def _body(fn):
-    return [s for s in fn.body if not (isinstance(s, ast.Expr) and isinstance(s.value, ast.Constant))]
+    return py2v.norm_body(fn, rename_locals=False)
+
+
+def _ref(src: str) -> ast.FunctionDef:
+    import textwrap
+    return ast.parse(textwrap.dedent(src)).body[0]
+
+
+def same_func(fn, refs: dict):
+    """refs: {value: reference source}; returns the value whose reference equals fn up to normalisation, else None"""
+    d = py2v.norm_dump(fn)
+    for val, src in refs.items():
+        if py2v.norm_dump(_ref(src)) == d:
+            return val
+    return None
+
+
+def _m(p, n, b) -> bool:
+    if isinstance(p, ast.Name) and p.id.startswith("_L"):
+        if not isinstance(n, ast.Name):
+            return False
+        if p.id in b:
+            return b[p.id] == n.id
+        if n.id in b.values():
+            return False
+        b[p.id] = n.id
+        return True
+    if type(p) is not type(n):
+        return False
+    for f in p._fields:
+        if f in ("ctx", "type_comment", "kind"):
+            continue
+        pv, nv = getattr(p, f, None), getattr(n, f, None)
+        if isinstance(pv, list):
+            if not isinstance(nv, list) or len(pv) != len(nv):
+                return False
+            for x, y in zip(pv, nv):
+                if isinstance(x, ast.AST):
+                    if not _m(x, y, b):
+                        return False
+                elif x != y:
+                    return False
+        elif isinstance(pv, ast.AST):
+            if not isinstance(nv, ast.AST) or not _m(pv, nv, b):
+                return False
+        elif pv != nv:
+            return False
+    return True
+
+
+def has(fn, patterns, what: str):
+    """every pattern (a statement or an expression; If/For/While patterns are matched on their header only) occurs in the
+    normalised function, with one consistent binding of the _L names; raises Untranslatable otherwise"""
+    nf = py2v.normalize_func(fn, rename_locals=False)
+    nodes = list(ast.walk(nf))
+
+    def parse(pt):
+        st = ast.parse(pt).body[0]
+        return st.value if isinstance(st, ast.Expr) else st
+
+    pats = [parse(x) for x in patterns]
+
+    def go(i, b):
+        if i == len(pats):
+            return True
+        for n in nodes:
+            b2 = dict(b)
+            if _m(pats[i], n, b2) and go(i + 1, b2):
+                return True
+        return False
+    # report the first pattern that cannot be matched on its own prefix
+    for k in range(1, len(pats) + 1):
+        saved = pats
+        pats = saved[:k]
+        ok = go(0, {})
+        pats = saved
+        if not ok:
+            raise Untranslatable(f"{what}: `{patterns[k - 1]}` not found")
+    return True
+
+
+ALIAS_SCOPED = """
+def replace_alias_name_with_cte_name(session, expression_context, id):
+    normalized_id = session._normalize_string(id.alias_or_name)
+    if normalized_id in session.name_to_sequence_id_mapping:
+        for cte in reversed(expression_context.ctes):
+            if cte.args["sequence_id"] in session.name_to_sequence_id_mapping[normalized_id]:
+                _set_alias_name(id, cte.alias_or_name)
+                break
+"""
+ALIAS_UNSCOPED = """
+def replace_alias_name_with_cte_name(session, expression_context, id):
+    normalized_id = session._normalize_string(id.alias_or_name)
+    if normalized_id in session.name_to_sequence_id_mapping:
+        for cte in reversed(expression_context.ctes):
+            _set_alias_name(id, cte.alias_or_name)
+            break
+"""
+ID_RESOLUTION = """
+def replace_branch_and_sequence_ids_with_cte_name(session, expression_context, id):
+    normalized_id = session._normalize_string(id.alias_or_name)
+    if normalized_id in session.known_ids:
+        if expression_context.args.get("joins") and normalized_id in session.known_branch_ids:
+            join_table_aliases = [x.alias_or_name for x in get_tables_from_expression_with_join(expression_context)]
+            ctes_in_join = [cte for cte in expression_context.ctes if cte.alias_or_name in join_table_aliases]
+            if ctes_in_join[0].args["branch_id"] == ctes_in_join[1].args["branch_id"]:
+                assert len(ctes_in_join) == 2
+                _set_alias_name(id, ctes_in_join[0].alias_or_name)
+                return
+        for cte in reversed(expression_context.ctes):
+            if normalized_id in (cte.args["branch_id"], cte.args["sequence_id"]):
+                _set_alias_name(id, cte.alias_or_name)
+                return
+"""
+NORMALIZE = """
+def normalize(session, expression_context, expr):
+    expr = ensure_list(expr)
+    expressions = _ensure_expressions(expr)
+    for expression in expressions:
+        identifiers = expression.find_all(exp.Identifier)
+        for identifier in identifiers:
+            identifier.transform(session.input_dialect.normalize_identifier)
+            replace_alias_name_with_cte_name(session, expression_context, identifier)
+            replace_branch_and_sequence_ids_with_cte_name(session, expression_context, identifier)
+"""
 
 
 def alias_scoping(norm_tree):
     f = py2v.find_func(norm_tree, "replace_alias_name_with_cte_name")
-    args = [a.arg for a in f.args.args]
-    if args != ["session", "expression_context", "id"]:
-        raise Untranslatable("replace_alias_name_with_cte_name: signature changed")
-    b = _body(f)
-    if len(b) != 2 or not isinstance(b[0], ast.Assign) or not isinstance(b[1], ast.If) or b[1].orelse:
-        raise Untranslatable("replace_alias_name_with_cte_name: body shape changed")
-    if ast.unparse(b[0]) != "normalized_id = session._normalize_string(id.alias_or_name)":
-        raise Untranslatable("replace_alias_name_with_cte_name: normalized_id is computed differently")
-    if ast.unparse(b[1].test) != "normalized_id in session.name_to_sequence_id_mapping":
-        raise Untranslatable("replace_alias_name_with_cte_name: guard changed")
-    inner = b[1].body
-    if len(inner) != 1 or not isinstance(inner[0], ast.For) or inner[0].orelse:
-        raise Untranslatable("replace_alias_name_with_cte_name: no single for-loop under the guard")
-    loop = inner[0]
-    if ast.unparse(loop.target) != "cte" or ast.unparse(loop.iter) != "reversed(expression_context.ctes)":
-        raise Untranslatable("replace_alias_name_with_cte_name: does not iterate reversed(expression_context.ctes)")
-    lb = loop.body
-    set_call = "_set_alias_name(id, cte.alias_or_name)"
-    if len(lb) == 1 and isinstance(lb[0], ast.If) and not lb[0].orelse:
-        test = ast.unparse(lb[0].test)
-        body = [ast.unparse(s) for s in lb[0].body]
-        if test == "cte.args['sequence_id'] in session.name_to_sequence_id_mapping[normalized_id]" \
-                and body == [set_call, "break"]:
-            return True
-        raise Untranslatable(f"replace_alias_name_with_cte_name: loop test/body changed: {test} / {body}")
-    if [ast.unparse(s) for s in lb] == [set_call, "break"]:
-        # takes the last CTE whatever its sequence id: the lookup is no longer scoped by the alias' sequence ids
-        return False
-    raise Untranslatable("replace_alias_name_with_cte_name: loop body shape changed")
+    r = same_func(f, {True: ALIAS_SCOPED, False: ALIAS_UNSCOPED})
+    if r is None:
+        raise Untranslatable("replace_alias_name_with_cte_name: neither the scoped lookup nor a shape I can read")
+    return r
 
 
 def id_resolution_shape(norm_tree):
-    f = py2v.find_func(norm_tree, "replace_branch_and_sequence_ids_with_cte_name")
-    src = ast.unparse(f)
-    need = ["normalized_id = session._normalize_string(id.alias_or_name)",
-            "if normalized_id in session.known_ids:",
-            "expression_context.args.get('joins') and normalized_id in session.known_branch_ids",
-            "get_tables_from_expression_with_join(expression_context)",
-            "[cte for cte in expression_context.ctes if cte.alias_or_name in join_table_aliases]",
-            "ctes_in_join[0].args['branch_id'] == ctes_in_join[1].args['branch_id']",
-            "assert len(ctes_in_join) == 2",
-            "_set_alias_name(id, ctes_in_join[0].alias_or_name)",
-            "for cte in reversed(expression_context.ctes):",
-            "if normalized_id in (cte.args['branch_id'], cte.args['sequence_id']):",
-            "_set_alias_name(id, cte.alias_or_name)"]
-    for n in need:
-        if n not in src:
-            raise Untranslatable(f"replace_branch_and_sequence_ids_with_cte_name: `{n}` not found")
-    # the normalize driver applies both functions to every identifier, alias first
-    g = py2v.find_func(norm_tree, "normalize")
-    gs = ast.unparse(g)
-    a = gs.find("replace_alias_name_with_cte_name(session, expression_context, identifier)")
-    b = gs.find("replace_branch_and_sequence_ids_with_cte_name(session, expression_context, identifier)")
-    if a < 0 or b < 0 or not a < b or "expression.find_all(exp.Identifier)" not in gs:
+    if same_func(py2v.find_func(norm_tree, "replace_branch_and_sequence_ids_with_cte_name"), {True: ID_RESOLUTION}) is None:
+        raise Untranslatable("replace_branch_and_sequence_ids_with_cte_name: shape changed")
+    if same_func(py2v.find_func(norm_tree, "normalize"), {True: NORMALIZE}) is None:
         raise Untranslatable("normalize: order/shape of the two replacement calls changed")
     return True
 
@@ -188,12 +274,13 @@ def id_resolution_shape(norm_tree):
 def schema_cache_policy(cat_tree):
     f = py2v.find_method(cat_tree, "_BaseCatalog", "add_table")
     b = _body(f)
-    if not b or ast.unparse(b[0]) != "table = self.ensure_table(table)":
+    tparam = f.args.args[1].arg
+    if not b or ast.unparse(b[0]) != f"{tparam} = self.ensure_table({tparam})":
         raise Untranslatable("add_table: first statement changed")
     src_last = ast.unparse(b[-1])
-    if not src_last.startswith("self._schema.add_table(table, column_mapping"):
+    if not src_last.startswith(f"self._schema.add_table({tparam}, column_mapping"):
         raise Untranslatable("add_table: does not end in self._schema.add_table(table, column_mapping, ...)")
-    guards = [s for s in b if isinstance(s, ast.If) and "self._schema.find(table)" in ast.unparse(s.test)]
+    guards = [s for s in b if isinstance(s, ast.If) and f"self._schema.find({tparam})" in ast.unparse(s.test)]
     if not guards:
         # no early return when a column mapping is supplied: sqlglot's MappingSchema.add_table overwrites the entry
         # (nested_set).  Returns are accepted only inside the `if column_mapping is None:` branch (nothing to refresh from).
@@ -201,11 +288,18 @@ def schema_cache_policy(cat_tree):
         for st in b:
             if isinstance(st, ast.If) and ast.unparse(st.test) == "column_mapping is None":
                 inside |= {id(n) for n in ast.walk(st) if isinstance(n, ast.Return)}
-        for n in ast.walk(f):
-            if isinstance(n, ast.Return) and id(n) not in inside:
-                raise Untranslatable("add_table: a return outside the `column_mapping is None` branch")
+        for st in b:
+            for n in ast.walk(st):
+                if isinstance(n, ast.Return) and id(n) not in inside:
+                    raise Untranslatable("add_table: a return outside the `column_mapping is None` branch")
+        # the mapping handed to sqlglot must be the caller's: nothing may be merged in from the cached entry
+        names = {n.id for st in b for n in ast.walk(st) if isinstance(n, ast.Name)}
+        for st in b:
+            if isinstance(st, ast.Assign) and ast.unparse(st.targets[0]) == "column_mapping" \
+                    and not (isinstance(st.value, ast.Call) and dotted(st.value.func) == "ensure_column_mapping"):
+                raise Untranslatable("add_table: column_mapping is rebuilt before it is stored")
         return False
-    if len(guards) == 1 and ast.unparse(guards[0].test) == "self._schema.find(table)" \
+    if len(guards) == 1 and ast.unparse(guards[0].test) == f"self._schema.find({tparam})" \
             and [ast.unparse(s) for s in guards[0].body] == ["return"] and not guards[0].orelse:
         return True
     raise Untranslatable("add_table: the guard on self._schema.find(table) has an unknown shape")
@@ -213,61 +307,84 @@ def schema_cache_policy(cat_tree):
 
 def schema_lookup(mix_tree):
     f = py2v.find_method(mix_tree, "TypedColumnsFromTempViewMixin", "_typed_columns")
-    src = ast.unparse(f)
-    if "table = exp.to_table(self.session._random_id)" not in src:
-        raise Untranslatable("_typed_columns: the view is not named by session._random_id")
-    if "kind='VIEW'" not in src or "exp.TemporaryProperty()" not in src or "self.session._collect(" not in src:
-        raise Untranslatable("_typed_columns: does not create a temporary view through session._collect")
-    if "listColumns(" not in src:
-        raise Untranslatable("_typed_columns: does not read the columns through catalog.listColumns")
-    drops = any(isinstance(n, ast.Call) and dotted(n.func) == "exp.Drop" for n in ast.walk(f)) or "DROP VIEW" in src.upper()
-    if drops:
-        # accepted only if the drop is unconditional: in a finally block or straight-line after the lookup
-        ok = any(isinstance(n, ast.Try) and n.finalbody and "Drop" in ast.unparse(ast.Module(body=n.finalbody, type_ignores=[]))
-                 for n in ast.walk(f))
-        straight = any(isinstance(s, (ast.Expr, ast.Assign)) and "Drop" in ast.unparse(s) for s in f.body)
-        if not (ok or straight):
-            raise Untranslatable("_typed_columns: a DROP exists but is conditional")
-    return drops
+    has(f, ["_L1 = exp.to_table(self.session._random_id)",
+            "self.session._collect(exp.Create(this=_L1, kind='VIEW', replace=True, "
+            "properties=exp.Properties(expressions=[exp.TemporaryProperty()]), expression=self.expression))",
+            "self.session.catalog.listColumns(_L1.sql(dialect=self.session.input_dialect), include_temp=True)"],
+        "_typed_columns")
+    nf = py2v.normalize_func(f, rename_locals=False)
+    drop_calls = [n for n in ast.walk(nf) if isinstance(n, ast.Call) and dotted(n.func) == "exp.Drop"]
+    if not drop_calls and "DROP" not in ast.unparse(nf).upper():
+        return False
+    # accepted only if the drop is unconditional: in a finally block around the lookup
+    for n in ast.walk(nf):
+        if isinstance(n, ast.Try) and n.finalbody and not n.handlers:
+            fin = ast.unparse(ast.Module(body=n.finalbody, type_ignores=[]))
+            if "exp.Drop(" in fin and "kind='VIEW'" in fin and "self.session._collect(" in fin \
+                    and any("listColumns" in ast.unparse(x) for x in n.body):
+                return True
+    raise Untranslatable("_typed_columns: a DROP exists but not as `finally` around the column lookup")
 
 
 def hash_formula(df_tree):
     f = py2v.find_method(df_tree, "BaseDataFrame", "_create_hash_from_expression")
-    b = [s for s in _body(f) if not isinstance(s, (ast.Import, ast.ImportFrom))]
-    if len(b) != 3:
+    b = [s for s in py2v.norm_body(f) if not isinstance(s, (ast.Import, ast.ImportFrom))]
+    if len(b) != 3 or not isinstance(b[0], ast.Assign) or not isinstance(b[1], ast.Assign) or not isinstance(b[2], ast.Return):
         raise Untranslatable("_create_hash_from_expression: body shape changed")
-    if ast.unparse(b[0]) != "value = expression.sql(dialect=_BaseSession().input_dialect).encode('utf-8')":
+    v0, v1 = ast.unparse(b[0].targets[0]), ast.unparse(b[1].targets[0])
+    if ast.unparse(b[0].value) != "expression.sql(dialect=_BaseSession().input_dialect).encode('utf-8')":
         raise Untranslatable("_create_hash_from_expression: the hashed value is not the rendered SQL text")
     a1 = b[1]
-    if not (isinstance(a1, ast.Assign) and isinstance(a1.value, ast.Subscript) and isinstance(a1.value.value, ast.JoinedStr)):
+    if not (isinstance(a1.value, ast.Subscript) and isinstance(a1.value.value, ast.JoinedStr)):
         raise Untranslatable("_create_hash_from_expression: hash is not an f-string slice")
     js = a1.value.value
     if not (len(js.values) == 2 and isinstance(js.values[0], ast.Constant) and isinstance(js.values[1], ast.FormattedValue)):
         raise Untranslatable("_create_hash_from_expression: f-string shape changed")
     prefix = js.values[0].value
     fn = ast.unparse(js.values[1].value)
-    if fn != "zlib.crc32(value)":
+    if fn != f"zlib.crc32({v0})":
         raise Untranslatable(f"_create_hash_from_expression: hashes with {fn}")
     sl = a1.value.slice
     if not (isinstance(sl, ast.Slice) and sl.lower is None and isinstance(sl.upper, ast.Constant) and sl.step is None):
         raise Untranslatable("_create_hash_from_expression: slice shape changed")
-    if ast.unparse(b[2]) != "return self.session._normalize_string(hash)":
+    if ast.unparse(b[2]) != f"return self.session._normalize_string({v1})":
         raise Untranslatable("_create_hash_from_expression: return changed")
     # names come from the hash wherever a CTE is named
-    c = ast.unparse(py2v.find_method(df_tree, "BaseDataFrame", "_create_cte_from_expression"))
-    if "name = name or self._create_hash_from_expression(expression)" not in c:
-        raise Untranslatable("_create_cte_from_expression: name is not the content hash")
-    a = ast.unparse(py2v.find_method(df_tree, "BaseDataFrame", "_add_ctes_to_expression"))
-    for n in ["if cte.alias_or_name in existing_cte_names:", "random_filter = exp.Literal.string(uuid.uuid4().hex)",
-              "exp.EQ(this=random_filter, expression=random_filter)", "new_cte_alias = self._create_hash_from_expression(cte.this)",
-              "existing_cte_names.add(new_cte_alias)", "existing_ctes.append(cte)",
-              "cte = cte.transform(replace_id_value, replaced_cte_names)"]:
-        if n not in a:
-            raise Untranslatable(f"_add_ctes_to_expression: `{n}` not found")
-    r = ast.unparse(py2v.find_method(df_tree, "BaseDataFrame", "_replace_cte_names_with_hashes"))
-    if "self._create_hash_from_expression(cte.this)" not in r or "for cte in expression.ctes:" not in r:
-        raise Untranslatable("_replace_cte_names_with_hashes: shape changed")
+    has(py2v.find_method(df_tree, "BaseDataFrame", "_create_cte_from_expression"),
+        ["name = name or self._create_hash_from_expression(expression)"], "_create_cte_from_expression")
+    has(py2v.find_method(df_tree, "BaseDataFrame", "_add_ctes_to_expression"),
+        ["_L1 = {_L9.alias_or_name for _L9 in _L2}",                    # names of the CTEs that are already there
+         "_L3.alias_or_name in _L1",                                     # the duplicate test
+         "_L3 = _L3.transform(replace_id_value, _L4, copy=False)",       # earlier renames reach later CTEs, in place
+         "self.session._auto_incrementing_name",                         # a new alias for the copy's inline VALUES
+         "_L5 = exp.Literal.string(uuid.uuid4().hex)",
+         "exp.EQ(this=_L5, expression=_L5)",
+         "_L6 = self._create_hash_from_expression(_L3.this)",
+         "_L1.add(_L6)",
+         "_L2.append(_L3)"], "_add_ctes_to_expression")
+    has(py2v.find_method(df_tree, "BaseDataFrame", "_replace_cte_names_with_hashes"),
+        ["self._create_hash_from_expression(_L1.this)"], "_replace_cte_names_with_hashes")
     return prefix, int(sl.upper.value)
+
+
+def _inline(expr, helpers):
+    """f(a, b) with f a module-level helper whose normalised body is `return e` -> e[params := args] (fail-closed)"""
+    if isinstance(expr, ast.Call) and isinstance(expr.func, ast.Name) and expr.func.id in helpers and not expr.keywords:
+        h = helpers[expr.func.id]
+        hb = py2v.norm_body(h, rename_locals=False)
+        params = [a.arg for a in h.args.args]
+        if len(hb) == 1 and isinstance(hb[0], ast.Return) and hb[0].value is not None and len(params) == len(expr.args) \
+                and not h.args.vararg and not h.args.kwarg and not h.args.kwonlyargs \
+                and all(isinstance(a, (ast.Name, ast.Attribute)) for a in expr.args):
+            m = dict(zip(params, expr.args))
+            import copy as _copy
+
+            class S(ast.NodeTransformer):
+                def visit_Name(self, node):
+                    return _copy.deepcopy(m[node.id]) if node.id in m else node
+            return _inline(S().visit(_copy.deepcopy(hb[0].value)), helpers)
+        raise Untranslatable(f"helper {expr.func.id}: not a single-return pure function of its arguments")
+    return expr
 
 
 def operation_facts(op_tree, df_tree):
@@ -279,6 +396,7 @@ def operation_facts(op_tree, df_tree):
     for k in ("INIT", "NO_OP", "FROM", "WHERE", "SELECT"):
         if k not in vals:
             raise Untranslatable(f"Operation.{k} missing")
+    helpers = py2v.module_helpers(op_tree)
     deco = py2v.find_func(op_tree, "operation")
     wrapper = py2v.find_func(deco, "wrapper")
     b = _body(wrapper)
@@ -287,16 +405,30 @@ def operation_facts(op_tree, df_tree):
     if ast.unparse(b[0]) != ("if self.last_op == Operation.INIT:\n    self = self._convert_leaf_to_cte()\n"
                              "    self.last_op = Operation.NO_OP"):
         raise Untranslatable("operation.wrapper: INIT branch changed")
-    if ast.unparse(b[1]) != "last_op = self.last_op":
+    s1, s2, s3 = b[1], b[2], b[3]
+    if not (isinstance(s1, ast.Assign) and isinstance(s1.targets[0], ast.Name) and ast.unparse(s1.value) == "self.last_op"):
         raise Untranslatable("operation.wrapper: last_op assignment changed")
-    if ast.unparse(b[2]) != "new_op = op if op != Operation.NO_OP else last_op":
+    last = s1.targets[0].id
+    if not (isinstance(s2, ast.Assign) and isinstance(s2.targets[0], ast.Name)):
+        raise Untranslatable("operation.wrapper: new_op assignment changed")
+    new = s2.targets[0].id
+    if ast.unparse(_inline(s2.value, helpers)) != f"op if op != Operation.NO_OP else {last}":
         raise Untranslatable("operation.wrapper: new_op computed differently")
-    s3 = b[3]
     if not (isinstance(s3, ast.If) and not s3.orelse and [ast.unparse(x) for x in s3.body] == ["self = self._convert_leaf_to_cte()"]):
         raise Untranslatable("operation.wrapper: wrap statement changed")
-    if [ast.unparse(x) for x in b[4:]] != ["df = func(self, *args, **kwargs)", "df.last_op = new_op", "return df"]:
+    if not (isinstance(b[4], ast.Assign) and isinstance(b[4].targets[0], ast.Name)
+            and ast.unparse(b[4].value) == "func(self, *args, **kwargs)"):
+        raise Untranslatable("operation.wrapper: call of the method changed")
+    res = b[4].targets[0].id
+    if [ast.unparse(x) for x in b[5:]] != [f"{res}.last_op = {new}", f"return {res}"]:
         raise Untranslatable("operation.wrapper: tail changed")
-    pred = bool_expr(s3.test, vals)
+    test = _inline(s3.test, helpers)
+
+    class R(ast.NodeTransformer):
+        def visit_Name(self, node):
+            return ast.Name(id={new: "new_op", last: "last_op"}.get(node.id, node.id), ctx=node.ctx)
+    import copy as _copy
+    pred = bool_expr(R().visit(_copy.deepcopy(test)), vals)
     # decorator class of the four methods the model covers
     decos = {}
     dfc = py2v.find_class(df_tree, "BaseDataFrame")
@@ -348,24 +480,30 @@ def bool_expr(n, vals):
 
 
 def session_shape(ses_tree, duck_tree):
-    cls = py2v.find_class(ses_tree, "_BaseSession")
     new = py2v.find_method(ses_tree, "_BaseSession", "__new__")
-    nb = _body(new)
-    tests = ("_BaseSession._instance is None",
-             # one instance per engine class: a session of another engine class is replaced, the same class is reused
-             "_BaseSession._instance is None or not isinstance(_BaseSession._instance, cls)")
-    if not (len(nb) == 2 and isinstance(nb[0], ast.If) and not nb[0].orelse and ast.unparse(nb[0].test) in tests
-            and [ast.unparse(x) for x in nb[0].body] == ["_BaseSession._instance = super().__new__(cls)"]
-            and ast.unparse(nb[1]) == "return _BaseSession._instance"):
+    if same_func(new, {1: """
+def __new__(cls, *args, **kwargs):
+    if _BaseSession._instance is None:
+        _BaseSession._instance = super().__new__(cls)
+    return _BaseSession._instance
+""", 2: """
+def __new__(cls, *args, **kwargs):
+    if _BaseSession._instance is None or not isinstance(_BaseSession._instance, cls):
+        _BaseSession._instance = super().__new__(cls)
+    return _BaseSession._instance
+"""}) is None:
         raise Untranslatable("_BaseSession.__new__ is no longer the singleton constructor")
     init = py2v.find_method(ses_tree, "_BaseSession", "__init__")
-    guard = [s for s in _body(init) if isinstance(s, ast.If) and ast.unparse(s.test) == "not hasattr(self, 'input_dialect')"]
+    ib = _body(init)
+    guard = [s for s in ib if isinstance(s, ast.If) and ast.unparse(s.test) == "not hasattr(self, 'input_dialect')"]
     if len(guard) != 1:
         raise Untranslatable("_BaseSession.__init__: the hasattr guard is gone")
     inits = {}
     for s in guard[0].body:
-        if isinstance(s, ast.AnnAssign) and dotted(s.target) and dotted(s.target).startswith("self."):
-            inits[dotted(s.target)[5:]] = ast.unparse(s.value)
+        if isinstance(s, (ast.AnnAssign, ast.Assign)):
+            tg = s.target if isinstance(s, ast.AnnAssign) else s.targets[0]
+            if dotted(tg) and dotted(tg).startswith("self.") and s.value is not None:
+                inits[dotted(tg)[5:]] = ast.unparse(s.value)
     want = {"known_ids": "set()", "known_branch_ids": "set()", "known_sequence_ids": "set()",
             "name_to_sequence_id_mapping": "defaultdict(list)", "temp_views": "{}"}
     for k, v in want.items():
@@ -376,7 +514,7 @@ def session_shape(ses_tree, duck_tree):
     except (TypeError, ValueError):
         raise Untranslatable("_BaseSession.__init__: incrementing_id start value")
     # any registry initialisation outside the guard would reset the session on a second DuckDBSession()
-    for s in _body(init):
+    for s in ib:
         if s is guard[0]:
             continue
         for n in ast.walk(s):
@@ -386,50 +524,44 @@ def session_shape(ses_tree, duck_tree):
     dg = [s for s in _body(dinit) if isinstance(s, ast.If) and ast.unparse(s.test) == "not hasattr(self, '_conn')"]
     if len(dg) != 1 or "super().__init__(conn, *args, **kwargs)" not in ast.unparse(dg[0]):
         raise Untranslatable("DuckDBSession.__init__: guard changed")
-    props = {}
-    for name, reg in (("_random_branch_id", "known_branch_ids"), ("_random_sequence_id", "known_sequence_ids")):
-        f = py2v.find_method(ses_tree, "_BaseSession", name)
-        if [ast.unparse(s) for s in _body(f)] != ["id = self._random_id", f"self.{reg}.add(id)", "return id"]:
+    refs = {
+        "_random_branch_id": "def f(self):\n    id = self._random_id\n    self.known_branch_ids.add(id)\n    return id\n",
+        "_random_sequence_id": "def f(self):\n    id = self._random_id\n    self.known_sequence_ids.add(id)\n    return id\n",
+        "_random_id": "def f(self):\n    id = 'r' + uuid.uuid4().hex\n    normalized_id = self._normalize_string(id)\n"
+                      "    self.known_ids.add(normalized_id)\n    return normalized_id\n",
+        "_auto_incrementing_name": "def f(self):\n    name = f'a{self.incrementing_id}'\n    self.incrementing_id += 1\n    return name\n",
+        "_add_alias_to_mapping": "def f(self, name, sequence_id):\n"
+                                 "    self.name_to_sequence_id_mapping[self._normalize_string(name)].append(sequence_id)\n",
+    }
+    for name, src in refs.items():
+        if same_func(py2v.find_method(ses_tree, "_BaseSession", name), {True: src}) is None:
             raise Untranslatable(f"{name}: body changed")
-    f = py2v.find_method(ses_tree, "_BaseSession", "_random_id")
-    if [ast.unparse(s) for s in _body(f)] != ["id = 'r' + uuid.uuid4().hex", "normalized_id = self._normalize_string(id)",
-                                              "self.known_ids.add(normalized_id)", "return normalized_id"]:
-        raise Untranslatable("_random_id: body changed")
-    f = py2v.find_method(ses_tree, "_BaseSession", "_auto_incrementing_name")
-    if [ast.unparse(s) for s in _body(f)] != ["name = f'a{self.incrementing_id}'", "self.incrementing_id += 1", "return name"]:
-        raise Untranslatable("_auto_incrementing_name: body changed")
-    f = py2v.find_method(ses_tree, "_BaseSession", "_add_alias_to_mapping")
-    if [ast.unparse(s) for s in _body(f)] != ["self.name_to_sequence_id_mapping[self._normalize_string(name)].append(sequence_id)"]:
-        raise Untranslatable("_add_alias_to_mapping: body changed")
     return counter0
 
 
 def dataframe_shape(df_tree):
-    init = ast.unparse(py2v.find_method(df_tree, "BaseDataFrame", "__init__"))
-    for n in ["self.branch_id = branch_id or self.session._random_branch_id",
-              "self.sequence_id = sequence_id or self.session._random_sequence_id",
-              "self.join_on_uuid = join_on_uuid or str(uuid4())", "self.known_uuids.add(self.join_on_uuid)"]:
-        if n not in init:
-            raise Untranslatable(f"BaseDataFrame.__init__: `{n}` not found")
-    al = py2v.find_method(df_tree, "BaseDataFrame", "alias")
-    s = [ast.unparse(x) for x in _body(al) if not isinstance(x, (ast.Import, ast.ImportFrom))]
-    if s[0] != "new_sequence_id = self.session._random_sequence_id" or s[1] != "df = self.copy()" \
-            or s[-2] != "df.session._add_alias_to_mapping(name, new_sequence_id)" \
-            or s[-1] != "return df._convert_leaf_to_cte(sequence_id=new_sequence_id)":
-        raise Untranslatable("BaseDataFrame.alias: body changed")
+    has(py2v.find_method(df_tree, "BaseDataFrame", "__init__"),
+        ["self.branch_id = branch_id or self.session._random_branch_id",
+         "self.sequence_id = sequence_id or self.session._random_sequence_id",
+         "self.join_on_uuid = join_on_uuid or str(uuid4())", "self.known_uuids.add(self.join_on_uuid)"], "BaseDataFrame.__init__")
+    has(py2v.find_method(df_tree, "BaseDataFrame", "alias"),
+        ["_L1 = self.session._random_sequence_id", "_L2 = self.copy()", "_L2.session._add_alias_to_mapping(name, _L1)",
+         "return _L2._convert_leaf_to_cte(sequence_id=_L1)"], "BaseDataFrame.alias")
     tv = py2v.find_method(df_tree, "BaseDataFrame", "createOrReplaceTempView")
-    s = [ast.unparse(x) for x in _body(tv)]
-    if s[1:3] != ["df = self.copy()._convert_leaf_to_cte()", "self.session.temp_views[name] = df"] \
-            or not s[3].startswith("self.session.catalog.add_table(name, "):
-        raise Untranslatable("createOrReplaceTempView: body changed")
-    cv = ast.unparse(py2v.find_method(df_tree, "BaseDataFrame", "_convert_leaf_to_cte"))
-    for n in ["sequence_id = sequence_id or df.sequence_id", "branch_id=self.branch_id, sequence_id=sequence_id",
-              "df._add_ctes_to_expression(exp.Select(), expression.ctes + [cte_expression])"]:
-        if n not in cv:
-            raise Untranslatable(f"_convert_leaf_to_cte: `{n}` not found")
-    co = ast.unparse(py2v.find_method(df_tree, "BaseDataFrame", "_collect"))
-    if "self._get_expressions(optimize=False)" not in co:
-        raise Untranslatable("_collect no longer executes the unoptimised expressions")
+    has(tv, ["_L1 = self.copy()._convert_leaf_to_cte()", "self.session.temp_views[name] = _L1",
+             "self.session.catalog.add_table(name, [_L2.alias_or_name for _L2 in self._get_outer_select_columns(_L1.expression)])"],
+        "createOrReplaceTempView")
+    has(py2v.find_method(df_tree, "BaseDataFrame", "_convert_leaf_to_cte"),
+        ["_L1 = self._resolve_pending_hints()", "sequence_id = sequence_id or _L1.sequence_id", "_L2 = _L1.expression.copy()",
+         "_L1._create_cte_from_expression(expression=_L2, branch_id=self.branch_id, sequence_id=sequence_id, name=name)",
+         "_L1._add_ctes_to_expression(exp.Select(), _L2.ctes + [_L3])"], "_convert_leaf_to_cte")
+    has(py2v.find_method(df_tree, "BaseDataFrame", "_collect"), ["self._get_expressions(optimize=False)"], "_collect")
+    has(py2v.find_method(df_tree, "BaseDataFrame", "_handle_self_join"),
+        ["self.branch_id == other_df.branch_id", "_L1 = other_df.known_uuids - self.known_uuids",
+         "_L2.meta['join_on_uuid'] in _L1 or _L2.meta['join_on_uuid'] == other_uuid",
+         "_L2.set('table', exp.to_identifier(other_df.latest_cte_name))"], "_handle_self_join")
+    has(py2v.find_method(df_tree, "BaseDataFrame", "join"),
+        ["_L1 = other._convert_leaf_to_cte()", "self._handle_self_join(_L1, _L2, other.join_on_uuid)"], "join")
     return True
 
 
